@@ -1039,8 +1039,18 @@ class AnsiString:
         self._s += incoming_str
         find_settings = []
         replace_settings = []
-        # Work on copies of the incoming settings so that value is never modified (value may even be self)
-        incoming = [(key, list(settings.add), list(settings.rem)) for key, settings in sorted(incoming_fmts.items())]
+        # Work on copies of the incoming settings so that value is never modified (value may even be self). The setting
+        # objects are copied too: a range is identified by its setting object, and value may share objects with self
+        # (value is self, a copy or a slice of self) - a shared object could end up active twice after the seam merge.
+        clones = {}
+        for settings in incoming_fmts.values():
+            for s in settings.add + settings.rem:
+                if id(s) not in clones:
+                    clones[id(s)] = AnsiSetting(s)
+        incoming = [
+            (key, [clones[id(s)] for s in settings.add], [clones[id(s)] for s in settings.rem])
+            for key, settings in sorted(incoming_fmts.items())
+        ]
         for key, add, rem in incoming:
             key += shift
             if key in self._fmts:
